@@ -3,8 +3,8 @@ CONSTANTS
   MaxPub = 4
   HistSize = 2
   MaxFaults = 2
-  Kinds = {"pos", "rec", "plain", "nohist"}
+  Kinds = {"pos", "rec", "plain", "nohist", "cache"}
   UrgentAsync = TRUE
   RecLimit = 0
-INVARIANTS TypeOK C01 C02 C10 C16 PosConsistent
+INVARIANTS TypeOK C01 C02 C03 C10 C16 PosConsistent
 CHECK_DEADLOCK FALSE
